@@ -97,9 +97,15 @@ class GCWorld(gen.World):
         if subject is not None:
             sd = {"mediaType": MT_OCI_M, "digest": subject, "size": len(g.bytes.get(subject, b""))}
         mt = self.rng.choice([MT_OCI_I, MT_OCI_I, MT_DOCK_I])
-        body = index_manifest([{"mediaType": g.man[c]["mt"], "digest": c, "size": len(g.bytes[c])} for c in children],
+        # (a child may be listed under a media type that is not a manifest type: the digest then plays two roles, an opaque
+        #  blob here and a manifest wherever it is listed as one)
+        opaque = self.rng.choice(["application/octet-stream", MT_LAYER])
+        as_blob = [c for c in children if self.rng.random() < 0.2]
+        body = index_manifest([{"mediaType": opaque if c in as_blob else g.man[c]["mt"], "digest": c, "size": len(g.bytes[c])} for c in children],
                               subject=sd, media_type=mt, annotations={"n": str(len(self.steps))})
-        return self.push(repo, body, mt, list(children), subject=subject, tag=tag, kind="index")
+        d = self.push(repo, body, mt, list(children), subject=subject, tag=tag, kind="index")
+        g.man[d]["opaque"] = as_blob
+        return d
 
     def build(self, repo):
         """a random object graph"""
@@ -147,6 +153,20 @@ class GCWorld(gen.World):
                 return
             d = rng.choice(cands)
             self.add(blob_delete(repo, d))
+        elif r < 0.88 and g.bytes:
+            # content that is already stored (possibly old by now) is uploaded again through a session: it was uploaded just now
+            plain = [x for x in sorted(g.bytes) if x not in g.man]     # (config / layer content, not the bytes of a manifest)
+            if not plain:
+                return
+            d = rng.choice(plain)
+            data = g.bytes[d]
+            k = self.add(upload_post(repo))
+            h = len(data) // 2
+            if h and rng.random() < 0.5:
+                self.add(upload_patch(repo, "$SID%d$" % k, None, state_token(0), data[:h]))
+                self.add(upload_put(repo, "$SID%d$" % k, None, d, state_token(h), data[h:]))
+            else:
+                self.add(upload_put(repo, "$SID%d$" % k, None, d, state_token(0), data))
         else:
             self.build(repo)
 
@@ -220,6 +240,8 @@ def replay_state(case, io):
             h = last_head.get((repo, st["digest"]))
             if h and h[0] == k - 1 and h[1] == 404:
                 yg.add(st["digest"])
+        elif kind == "uput" and status == 201 and st.get("digest"):
+            yg.add(st["digest"])          # written through a session: stored (again) now
         elif kind == "mput" and status == 201:
             d = (res.get("headers") or {}).get("Docker-Content-Digest", [""])[0]
             h = last_head.get((repo, d))
